@@ -69,6 +69,91 @@ def conversion_ok(kind, e):
     return False
 
 
+TEXT_ALTERING = {"trim_start_matches", "trim_end_matches", "trim_matches", "trim_left_matches", "trim_right_matches", "trim_start",
+                 "trim_end", "trim_left", "trim_right", "trim", "to_lowercase", "to_uppercase", "to_ascii_lowercase", "to_ascii_uppercase",
+                 "replace", "replacen", "replace_all", "strip_suffix", "trim_ascii", "trim_ascii_start", "trim_ascii_end", "truncate",
+                 "split_off", "rsplit", "rsplitn", "splitn", "split_once", "rsplit_once", "repeat"}
+
+
+def walk_arg(e, depth=0):
+    """sub-expressions of an identifier's text, not descending below the point where the single argument is taken out of the
+    command's argument list (an element / item / first() / captures group)"""
+    if not isinstance(e, tuple) or not e or isinstance(e, frozenset) or depth > 40:
+        return
+    if isinstance(e[0], str):
+        yield e
+        if e[0] in ("elem", "item", "next") or (e[0] == "call" and e[1].split("::")[-1] in ("first", "last", "get", "nth", "index", "captures", "pop", "remove")):
+            return
+    for x in e:
+        if isinstance(x, tuple):
+            yield from walk_arg(x, depth + 1)
+
+
+def sc5(F, R):
+    """the text is taken as written: Script::from_str stores exactly the string it is given, and an identifier loses exactly its
+    one sigil (`$x`, `ν7`), nothing else"""
+    ctor = None
+    for b in F.all_bodies():
+        if b.self_adt == "Script" and b.name == "from_str" and b.kind != "Closure":
+            ctor = b
+    if ctor is None:
+        R.missing("SC5", "Script::from_str")
+    else:
+        R.analysed(ctor)
+        n = 0
+        for site, kind, st in ctor.sites():
+            if kind == "stmt" and st["k"] == "assign" and st["rv"]["k"] == "aggregate" and st["rv"].get("adt") == "Script":
+                n += 1
+                txt = dict(ctor.expr_rvalue(st["rv"], site)[3]).get("txt")
+                names = [x[1].split("::")[-1] for x in walk(txt) if x[0] == "call"] if txt is not None else ["?"]
+                bad = [x for x in names if x in TEXT_ALTERING]
+                from_param = txt is not None and mentions(txt, lambda x: x[0] == "param")
+                if bad or not from_param:
+                    R.bad("SC5", "SC5/Script::from_str/text-altered", ctor.where(site),
+                          "the script does not keep exactly the text it was given (%s): what is executed is not what was written "
+                          "(e.g. a final comment line loses its line end and is no longer recognised)" % (bad or "not the parameter"),
+                          {"txt": show(txt, ctor)[:200] if txt is not None else None})
+                else:
+                    R.ok("SC5", ctor.where(site), "Script::from_str stores the given text unchanged")
+        R.floor("SC5", "constructions of Script in from_str", n, 1, ctor.where())
+    c = sctx(F)
+    if c.root is None:
+        return
+    # identifiers: what reaches the number parser / the variable table
+    for e in c.raw:
+        if e.kind != "call" or e.exp:
+            continue
+        is_num = ("usize" in e.path or "str>::parse" in e.path) and e.name in ("from_str", "parse", "from_str_radix")
+        is_var = e.name in ("entry", "get", "contains_key", "insert") and "HashMap" in e.path and e.args and \
+            mentions(e.args[0], lambda x: x[0] == "field" and x[2] == "Script::vars")
+        if not (is_num or is_var):
+            continue
+        key = e.args[0] if is_num else (e.args[1] if len(e.args) > 1 else None)
+        if key is None:
+            continue
+        names = [x[1].split("::")[-1] for x in walk_arg(key) if x[0] == "call"]
+        # a String assembled by pushes: what was pushed counts as well
+        for x in walk_arg(key):
+            if x[0] == "call" and x[1].split("::")[-1] in ("new", "with_capacity") and "String" in x[1]:
+                for p2 in c.raw:
+                    if p2.kind == "call" and p2.name in ("push", "push_str", "extend") and p2.args and strip_sites(strip_load(p2.args[0])) == strip_sites(x):
+                        names += [y[1].split("::")[-1] for a2 in p2.args[1:] for y in walk_arg(a2) if y[0] == "call"]
+        bad = sorted({x for x in names if x in TEXT_ALTERING and x != "trim"})
+        def over_chars(x):
+            y = strip_load(x[2])
+            while y[0] == "adapt":
+                y = strip_load(y[2])
+            return y[0] == "iter" and y[2] in ("chars", "char_indices", "bytes")
+        skips = [x for x in walk_arg(key) if x[0] == "adapt" and x[1] in ("skip", "skip_while", "take", "take_while", "filter", "step_by", "rev") and over_chars(x)]
+        bad_skip = [x[1] for x in skips if not (x[1] == "skip" and strip_load(x[3][0]) == ("const", 1))]
+        if bad or bad_skip:
+            R.bad("SC5", "SC5/Script::deploy_to/identifier-text-altered", e.where(),
+                  "an identifier is not used as written minus exactly its one sigil (%s): different texts name the same vertex or "
+                  "variable, or a malformed identifier is accepted" % (bad + bad_skip), {"text": show(key, e.body)[:240]})
+        else:
+            R.ok("SC5", e.where(), "identifier text: as written, at most one leading character removed")
+
+
 def sc1(F, R):
     c = sctx(F)
     root = c.root
